@@ -245,6 +245,21 @@ def v_eq(I, a, b):
         if len(a) != len(b):
             return False
         return And(*[v_eq(I, x, y) for x, y in zip(a, b)])
+    if isinstance(a, Obj) and isinstance(b, Obj):
+        if a is b:
+            return True
+        if a.ty != b.ty:
+            return False
+        # a hand-written `impl PartialEq` of the repo type decides; otherwise #[derive(PartialEq)]: field by field
+        file = getattr(a, "file", None)
+        if file is not None:
+            cands = [c for c in I.methods_of(a.ty, file, "eq") if "PartialEq" in (c[1].get("trait") or "")]
+            if len(cands) == 1:
+                return I.call_fn(cands[0][0], cands[0][1], [a, b])
+        keys = [k for k in a.fields if not k.startswith("_")]
+        if set(keys) != set(k for k in b.fields if not k.startswith("_")):
+            raise Unsupported("== between %s objects with different fields" % a.ty)
+        return And(*[v_eq(I, a.fields[k], b.fields[k]) for k in keys])
     raise Unsupported("== between %s and %s" % (type(a).__name__, type(b).__name__))
 
 
@@ -1113,6 +1128,18 @@ def method(I, recv, name, args, e, env):
                     pos -= 1
                 out.insert(pos, kx)
             recv[:] = [x for _, x in out]
+            return UNIT
+        if name == "dedup_by_key" and getattr(I, "model_sort", False):
+            # removes all but the first of consecutive elements with equal keys
+            out = []
+            last_key = None
+            for x in recv:
+                kx = I.call_closure(args[0], [x])
+                if out and I.truth(v_eq(I, kx, last_key)):
+                    continue
+                out.append(x)
+                last_key = kx
+            recv[:] = out
             return UNIT
         if name in ("sort_by_cached_key", "sort_by_key", "sort_by", "sort", "dedup", "dedup_by_key"):
             I.ex.notes.append(("unmodelled-reorder", name))
